@@ -437,6 +437,9 @@ pub struct Forest {
     pub map: HashMap<Node, Mid>,
     /// handle-less nodes the implementation is allowed to leave behind (refused create+append calls)
     pub leaks: usize,
+    /// nodes of half-built trees that refused parse calls left in the arena: no handle to them was ever handed
+    /// out, so they are neither arguments of later calls nor part of any state the caller can observe
+    pub garbage: std::collections::HashSet<Node>,
     pub consolidation_ever_off: bool,
     pub with_model: bool,
 }
@@ -464,6 +467,7 @@ impl Forest {
             model: Model::new(),
             map: HashMap::new(),
             leaks: 0,
+            garbage: std::collections::HashSet::new(),
             consolidation_ever_off: false,
             with_model,
         }
@@ -526,7 +530,23 @@ impl Forest {
     }
 
     pub fn live_handles(&self) -> Vec<Node> {
-        self.xot.verif_live_nodes()
+        let mut v = self.xot.verif_live_nodes();
+        if !self.garbage.is_empty() {
+            v.retain(|n| !self.garbage.contains(n));
+        }
+        v
+    }
+
+    /// after a refused parse: whatever is live now and was not before is unreachable garbage
+    pub fn note_parse_garbage(&mut self, live_before: &[Node]) {
+        let before: std::collections::HashSet<Node> = live_before.iter().copied().collect();
+        let mut added = 0;
+        for n in self.xot.verif_live_nodes() {
+            if !before.contains(&n) && self.garbage.insert(n) {
+                added += 1;
+            }
+        }
+        self.leaks += added;
     }
 
     // ------------------------------------------------------------------ preconditions (Appendix A)
@@ -594,7 +614,9 @@ impl Forest {
             TextContentMut(..) => true,
             NewDocWithElement(e) => kind(*e) == MKind::Elem,
             NewLeaf(_) | NewAttrNode(..) | NewNsNode(..) => true,
-            Parse(_) | SetConsolidation(_) => true,
+            // the documented precondition of parse: the text is a well-formed document (judged by the independent reader)
+            Parse(s) => crate::xmlread::read(s, false).is_ok(),
+            SetConsolidation(_) => true,
             RemoveWs(_) | DedupNs(_) | CreateMissingPrefixes(_) => false,
         }
     }
@@ -1393,11 +1415,47 @@ impl OpGen {
             }),
             32 => Op::NewAttrNode(pick_attr_name(rng), pick_text(rng)),
             33 => Op::NewNsNode(rng.pick(PFX_POOL).to_string(), rng.pick(&["urn:A", "urn:B"]).to_string()),
-            34 => Op::Parse(rng.pick(&[
-                "<r><s>t</s> <s/></r>",
-                "<r xml:id=\"i1\" a=\"1\"><s xml:id=\"i2\"/>x</r>",
-                "<p:r xmlns:p=\"urn:A\" p:k=\"v\"><c/>t<!--c--></p:r>",
-            ]).to_string()),
+            34 => match rng.below(3) {
+                0 => Op::Parse(rng.pick(&[
+                    "<r><s>t</s> <s/></r>",
+                    "<r xml:id=\"i1\" a=\"1\"><s xml:id=\"i2\"/>x</r>",
+                    "<p:r xmlns:p=\"urn:A\" p:k=\"v\"><c/>t<!--c--></p:r>",
+                ]).to_string()),
+                1 => {
+                    // a hostile but well-formed spelling of a small generated document (CDATA next to text, CR / CRLF,
+                    // references, declarations after attributes, ...): what parsing builds must be a sound tree too
+                    let mut text = None;
+                    for _ in 0..6 {
+                        let mut cfg = crate::gen::GenCfg::default();
+                        cfg.max_nodes = 7;
+                        cfg.max_depth = 3;
+                        cfg.top_misc = rng.bool();
+                        cfg.str_len = 4;
+                        cfg.xml_id = false;
+                        cfg.long_strings = false;
+                        let d = crate::gen::gen_document(rng, &cfg);
+                        if crate::render::renderable(&d) && crate::gen::is_wf_document(&d) {
+                            let opts = crate::render::RenderOpts { fragment: false, allow_decl: true, allow_bom: false, ..Default::default() };
+                            text = Some(crate::render::render(&d, &mut crate::render::RandomChoices(rng), &opts).text);
+                            break;
+                        }
+                    }
+                    Op::Parse(text.unwrap_or_else(|| "<r>a<![CDATA[b\r\nc]]>d</r>".to_string()))
+                }
+                _ => Op::Parse(rng.pick(&[
+                    // ill-formed: to be refused; were one accepted, the tree it builds would break an invariant
+                    "<r xmlns:p=\"urn:u\" xmlns:q=\"urn:u\"><a p:x=\"1\" q:x=\"2\"/></r>",
+                    "<r xmlns:p=\"urn:u\"><a xmlns:q=\"urn:u\" p:x=\"1\" q:x=\"2\"/></r>",
+                    "<a xmlns:p=\"urn:1\" xmlns:p=\"urn:2\"/>",
+                    "<a xmlns=\"urn:1\" xmlns=\"urn:2\"/>",
+                    "<a k=\"1\" k=\"2\"/>",
+                    "<a><b></a>",
+                    "<a/><b/>",
+                    "t<a/>",
+                    "<a>&#0;</a>",
+                    "<a><b>",
+                ]).to_string()),
+            },
             35 => {
                 if !self.allow_unmodelled { return None; }
                 Op::RemoveWs(a)
